@@ -64,6 +64,23 @@ func schemaNode(t *rapid.T, depth int, badRef *bool) map[string]any {
 			*badRef = true
 		}
 		s := map[string]any{"type": "object", "properties": props}
+		// required names and defaults: the bookkeeping of "required but created from a default" lives in the object validator
+		if rapid.Bool().Draw(t, "withrequired") {
+			var req []any
+			for _, nm := range []string{"a", "b", "c", "d"} {
+				if rapid.IntRange(0, 2).Draw(t, "req:"+nm) == 0 {
+					req = append(req, nm)
+				}
+			}
+			if len(req) > 0 {
+				s["required"] = req
+			}
+		}
+		for _, nm := range gen.SortedKeys(props) {
+			if p, ok := props[nm].(map[string]any); ok && p["$ref"] == nil && rapid.IntRange(0, 3).Draw(t, "dflt:"+nm) == 0 {
+				p["default"] = "dflt"
+			}
+		}
 		if rapid.Bool().Draw(t, "addl") {
 			s["additionalProperties"] = schemaNode(t, depth-1, badRef)
 		}
@@ -104,6 +121,10 @@ func genCase(t *rapid.T) Case {
 		}
 		if m, ok := v.(map[string]any); ok && rapid.IntRange(0, 3).Draw(t, "addzz") == 0 {
 			m["zz"] = "x"
+		}
+		if m, ok := v.(map[string]any); ok && len(m) > 0 && rapid.IntRange(0, 2).Draw(t, "dropmember") == 0 {
+			keys := gen.SortedKeys(m)
+			delete(m, keys[rapid.IntRange(0, len(keys)-1).Draw(t, "dropkey")])
 		}
 		c.Instances = append(c.Instances, gen.Text(v))
 	}
